@@ -119,7 +119,9 @@ pub trait BinEncodable {
             old(encoder).tight() ==> final(encoder).tight(),
             final(encoder).canonical_form == old(encoder).canonical_form,
             final(encoder).name_encoding == old(encoder).name_encoding,
-            forall|i: int| 0 <= i < old(encoder).offset ==> final(encoder).bytes()[i] == old(encoder).bytes()[i];
+            forall|i: int| 0 <= i < old(encoder).offset ==> final(encoder).bytes()[i] == old(encoder).bytes()[i],
+            // only emit_iter constructs NotAllRecordsWritten; an item emitter never reports it
+            !(r matches Err(ProtoError::NotAllRecordsWritten { .. }));
 }
 
 impl<'a> BinEncoder<'a> {
@@ -190,16 +192,20 @@ impl<'a> BinEncoder<'a> {
                 Err(_) => true,
             },
             forall|i: int| 0 <= i < old(self).offset ==> final(self).bytes()[i] == old(self).bytes()[i],
+            // the count reported never exceeds the number of items offered ("sections are a prefix")
+            r matches Ok(n) ==> n == vp_items(iter),
+            r matches Err(ProtoError::NotAllRecordsWritten { count }) ==> count < vp_items(iter),
 //%attr #[verifier::loop_isolation(false)]
 //%sub1 "let mut count = 0;" => "let mut count: usize = 0;" # R-ann: type ascription (inferred as usize from the return type; spec expressions need it explicit)
 //%before "for i in iter"
         let ghost enc0 = *old(self);
+        let ghost n_items = vp_items(iter);
 //%forloop "for i in iter"
             invariant self.wf(), self.max() == enc0.max(), self.offset >= enc0.offset,
                 enc0.tight() ==> self.tight(),
                 forall|i: int| 0 <= i < enc0.offset ==> self.bytes()[i] == enc0.bytes()[i],
                 vp_it0.obeys_prophetic_iter_laws(), vp_it0.decrease() is Some,
-                count + vp_it0.remaining().len() < usize::MAX,
+                count + vp_it0.remaining().len() == n_items < usize::MAX,
             decreases vp_it0.decrease().unwrap()
 //%before "let rollback = Rollback"
             let ghost vp_iter_start = *self;
@@ -350,7 +356,8 @@ impl BinEncodable for u32 {
                 Ok(_) => final(encoder).offset == old(encoder).offset + 4
                       && be32(final(encoder).bytes()[old(encoder).offset as int], final(encoder).bytes()[old(encoder).offset + 1],
                               final(encoder).bytes()[old(encoder).offset + 2], final(encoder).bytes()[old(encoder).offset + 3]) == *self as int,
-                Err(e) => final(encoder).offset == old(encoder).offset && final(encoder).bytes() == old(encoder).bytes(),
+                Err(e) => final(encoder).offset == old(encoder).offset && final(encoder).bytes() == old(encoder).bytes()
+                      && e == ProtoError::MaxBufferSizeExceeded(old(encoder).buffer.max_size),
             }
 //%sub1 "&self.to_be_bytes()" => "vp_u32_to_be_bytes(*self).as_slice()" # R-shim: u32::to_be_bytes
 //%end
@@ -361,7 +368,8 @@ impl BinEncodable for i32 {
         ensures final(encoder).name_pointers == old(encoder).name_pointers,
             match r {
                 Ok(_) => final(encoder).offset == old(encoder).offset + 4,
-                Err(e) => final(encoder).offset == old(encoder).offset && final(encoder).bytes() == old(encoder).bytes(),
+                Err(e) => final(encoder).offset == old(encoder).offset && final(encoder).bytes() == old(encoder).bytes()
+                      && e == ProtoError::MaxBufferSizeExceeded(old(encoder).buffer.max_size),
             }
 //%sub1 "&self.to_be_bytes()" => "vp_i32_to_be_bytes(*self).as_slice()" # R-shim: i32::to_be_bytes
 //%end
@@ -402,9 +410,10 @@ pub fn vp_slice_eq(a: &[u8], b: &[u8]) -> (r: bool)
 // R-for support: the language-defined desugaring of `for` calls IntoIterator::into_iter; the callers
 // of emit_iter pass slices / arrays / slice iterators.  ASSUMED caller contract: the iterator obeys
 // the iterator laws and is finite.
+pub uninterp spec fn vp_items<T>(t: T) -> nat;   // how many items IntoIterator::into_iter(t) will yield
 #[verifier::external_body]
 pub fn vp_into_iter<T: IntoIterator>(t: T) -> (r: T::IntoIter)
-    ensures r.obeys_prophetic_iter_laws(), r.decrease() is Some, r.remaining().len() < usize::MAX
+    ensures r.obeys_prophetic_iter_laws(), r.decrease() is Some, r.remaining().len() == vp_items(t) < usize::MAX
 { t.into_iter() }
 
 // R-shim for Vec::retain(|&(start, _)| start < offset): keeps, in order, exactly the entries below offset
